@@ -22,7 +22,7 @@ def build():
     _built["secs"] = round(time.time() - t0, 1)
 
 
-def run_tv(res, families, modes, known_roles=(), note=""):
+def run_tv(res, families, modes, known_roles=(), note="", reject_is_violation=False):
     """families: set of family names (or None = all); modes: which comparisons this property decides."""
     build()
     import gen, tvrun, tv, lang
@@ -46,7 +46,13 @@ def run_tv(res, families, modes, known_roles=(), note=""):
             unsupported.append({"program": r["name"], "why": r["reason"][:160]})
         elif r["status"] == "compile_error":
             n_cerr += 1
-            res.inconclusive.append(f"{r['name']}: generated program rejected by the compiler: {r['reason'][:200]}")
+            script = os.path.join(tvrun.WORK, "src", r["name"] + ".roto")
+            if reject_is_violation:
+                # every program of these families is a documented spelling / a chain the documented table accepts
+                res.violation(f"{r['name']}: a program that the documented grammar accepts is rejected (or crashes the compiler): {r['reason'][:160]}",
+                              {"engine": "tv-compile", "program": r["name"], "source": open(script).read(), "report": r["reason"]})
+            else:
+                res.inconclusive.append(f"{r['name']}: generated program rejected by the compiler: {r['reason'][:200]}")
         else:
             n_inc += 1
             res.inconclusive.append(f"{r['name']}: {r['reason'][:200]}")
